@@ -127,6 +127,22 @@ Definition load_and_record_wf (f : fn_def) : bool :=
   | _ => false
   end.
 
+(* add_asset, the slow path of a load: load (recorded), then hand the entry to the map's insert --
+   nothing else looks at or writes the map in between (who loses a creation race is decided by
+   insert alone, and drops its value there) *)
+Definition add_asset_wf (f : fn_def) : bool :=
+  match fn_body f with
+  | [ESemi (EMacro "trace" _);
+     ELetS (PIdent "id" None) (Some (ECall (EPath ["SharedString"; "from"]) [EPath ["id"]])) None;
+     ELetS (PIdent c None) (Some (EStruct ["AnyCache"] [("cache", EPath ["self"])])) None;
+     ELetS (PIdent e None) (Some (ETry (ECall (EPath ["crate"; "asset"; "load_and_record"]) [EPath [c']; EPath ["id"]; EPath ["typ"]]))) None;
+     ECall (EPath ["Ok"]) [EMethod (EMethod (EPath ["self"]) "assets" []) "insert" [EPath [e']]]] =>
+      String.eqb c c' && String.eqb e e'
+  | _ => false
+  end.
+Lemma add_asset_loads_then_inserts : add_asset_wf RawCache_add_asset = true.
+Proof. vm_compute. reflexivity. Qed.
+
 Lemma recording_call_sites :
   read_records_first Cache_read "add_file_record" = true /\
   read_records_first Cache_read_dir "add_dir_record" = true /\
